@@ -27,11 +27,14 @@ def cases(tier, rng):
     n_cases = 14 if tier == "quick" else 56
     per = 2 if tier == "quick" else 14
     out = []
+    nclass = {True: 0, False: 0}
     for i in range(n_cases):
         sc = []
         for j in range(per):
-            lossy = bool((i + j) % 3 == 0)
-            sc.append({"seed": int(rng.integers(1 << 30)), "lossy": lossy, "steps": int(rng.integers(12, 30 if tier == "quick" else 40))})
+            lossy = bool((i + j) % 2 == 0)
+            # the material class (tensor tier x permeability x conductivity tiers) is walked, not drawn
+            sc.append({"seed": int(rng.integers(1 << 30)), "lossy": lossy, "steps": int(rng.integers(12, 30 if tier == "quick" else 40)), "mclass": nclass[lossy]})
+            nclass[lossy] += 1
         out.append({"scenes": sc})
     return out
 
@@ -60,9 +63,10 @@ def make_scene(sc):
         boundaries=("pec", "pmc", "periodic", "none"),
         pml=None,
         bloch=True,
-        materials="diag" if sc["lossy"] and rng.random() < 0.6 else ("iso" if sc["lossy"] else "any"),
+        materials="any",
         lossy=sc["lossy"],
         n_sources=(0, 4),
+        material_class=sc.get("mclass"),
     )
     if scene["complex"] is None and rng.random() < 0.2:
         scene["complex"] = True
@@ -79,6 +83,7 @@ def _one(sc, r):
 
     scene, rng = make_scene(sc)
     meta = scene["meta"]
+    r.branch("material_class:" + str(meta.get("material_class", "drawn")))
     built = scenes.build(scene)
     arrays, objects = built["arrays"], built["objects"]
     T = sc["steps"]
